@@ -500,12 +500,12 @@ def run_property(prop_id: str, tier: str, base_seed: int, only: Optional[str] = 
     if procs is None:
         procs = int(os.environ.get("VERIF_PROCS", "0")) or (8 if tier == "quick" else 16)
     procs = max(1, min(procs, len(tasks)))
-    if procs == 1:
-        results = [run_task(t) for t in tasks]
-    else:
-        ctx = mp.get_context("fork")
-        with ctx.Pool(procs) as pool:
-            results = pool.map(run_task, tasks, chunksize=1)
+    # every task runs in a process forked from this one for that task alone: what a task generates must not depend on which other
+    # tasks the same worker happened to run before it (imported modules feed Hypothesis' pool of constants, the library keeps
+    # module-level state) - otherwise a run is not a function of the code and VERIF_SEED, and differs with the number of processes
+    ctx = mp.get_context("fork")
+    with ctx.Pool(procs, maxtasksperchild=1) as pool:
+        results = pool.map(run_task, tasks, chunksize=1)
 
     errors = [r for r in results if "error" in r]
     if errors:
@@ -655,8 +655,13 @@ def _write_evidence(prop, tier, seed, clauses, per_clause, buckets, known, viola
         "violations": len(violations),
     }
     ev["coverage"].update(prop.extra_coverage or {})
-    os.makedirs(os.path.join(VERIF_DIR, "evidence"), exist_ok=True)
-    path = os.path.join(VERIF_DIR, "evidence", f"{prop.id}.json")
+    # evidence/ describes /repo only: a run aimed at another tree (VERIF_REPO: a mutant or a seeded change in a scratch worktree)
+    # writes its record under .work/, and so does a partial run (--only), which would otherwise replace the full record
+    from .core import REPO
+
+    ev_dir = os.path.join(VERIF_DIR, "evidence") if (REPO == os.path.realpath("/repo") and not only) else os.path.join(VERIF_DIR, ".work", "evidence-other")
+    os.makedirs(ev_dir, exist_ok=True)
+    path = os.path.join(ev_dir, f"{prop.id}.json")
     tmp = path + ".tmp"
     with open(tmp, "w") as f:
         json.dump(ev, f, indent=1, default=lambda o: {"__hex__": bytes(o).hex()})
